@@ -49,7 +49,7 @@ var baseLetters = []int{'a', 'b', 'c'}
 func cfgC01() GenCfg {
 	return GenCfg{MaxDepth: 4, Letters: []int{'a', 'b', 'c', 'A', 'B', 0xe9, 0xc9, '_', ' ', '\n', '-', 0x1F600, 0x301},
 		Lookbehind: true, Lookahead: true, Refs: true, Conds: true, Anchors: true, Atomic: true,
-		InlineOpts: "ims", Named: true, Shorthands: true, Subtraction: true, Nullable: true, Dot: true, G: false, MaxGroups: 5, MaxRepBound: 3, MaxNodes: 12}
+		InlineOpts: "ims", Named: true, Shorthands: true, Subtraction: true, Nullable: true, NestedRep: true, Dot: true, G: false, MaxGroups: 5, MaxRepBound: 3, MaxNodes: 12}
 }
 
 type Gen struct {
